@@ -83,6 +83,9 @@ ASSUMPTIONS = ["a git call takes effect completely, not at all, or is torn at th
 # The repair landed in /repo as f348741.  The variant is read from the tree under test (a fail-closed shape test of tmp_worktree:
 # is `git worktree add` issued inside the try block, after a `git branch --list` existence test?), so that a tree which loses the
 # repair is checked against the model of the unrepaired code -- where F2 is no longer a listed finding and is reported again.
+SHAPE_PROBLEM: list = []
+
+
 def _guard_in_source() -> bool:
     repo = Path(os.environ.get("GRIFFE_REPO", "/repo"))
     tree = ast.parse((repo / "src" / "_griffe" / "git.py").read_text())
@@ -94,7 +97,11 @@ def _guard_in_source() -> bool:
     add_in_try = any(has(ast.Module(body=t.body, type_ignores=[]), "worktree", "add") for t in tries)
     listed_first = has(fn, "branch", "--list")
     if add_in_try != listed_first:
-        raise RuntimeError("tmp_worktree has neither the repaired nor the unrepaired shape (worktree add in try: %s, branch --list: %s)" % (add_in_try, listed_first))
+        # neither shape: not an import-time crash (the run must still go on and look for a failing input) but a broken tie,
+        # reported from explore(); the model variant follows the place of `worktree add`, the existence test is then
+        # part of what the correspondence compares (the `list` call of the protocol is missing or unexpected)
+        SHAPE_PROBLEM.append("tmp_worktree has neither the repaired nor the unrepaired shape (worktree add in try: %s, branch --list: %s)"
+                             % (add_in_try, listed_first))
     return add_in_try
 
 
@@ -2378,6 +2385,8 @@ def clean_points(env, repo, ref):
 
 def explore(ctx):
     import griffe  # noqa: F401
+    for msg in SHAPE_PROBLEM:
+        ctx.tie_failure("correspondence", "shape of tmp_worktree (which model variant describes the tree under test)", msg, {"kind": "shape"})
     with Env(ctx) as env:
         notrepo = assert_safe(env)
         quick = ctx.quick
